@@ -99,6 +99,11 @@ NoRanking == /\ pc = "aggregate" /\ batches = <<>> /\ pc' = "exit"      \* 'No r
 
 Next == ReadSkip \/ AcceptRow \/ RejectRow \/ ProcessBatch \/ CloseFile \/ TailBatch \/ DropTail \/ Aggregate \/ NoRanking
 Spec == Init /\ [][Next]_vars
+\* ---- liveness (checked under weak fairness of the loop): the task terminates - every run ends with the ranks written or with
+\* the "no rankings" exit - and a full buffer is always processed (the polling loop of the real code has no other exit)
+FairSpec == Spec /\ WF_vars(Next)
+Terminates == <>(pc \in {"written", "exit"})
+FullBufferProcessed == [](Len(buf) >= MB => <>(Len(buf) < MB))
 
 \* ---- C08
 ConsumedPrefix == IsPrefix(Flat(batches) \o buf, RefRows) /\ (pc = "loop" => Flat(batches) \o buf = RefRows)
